@@ -102,5 +102,23 @@ CHECKS["C02"] = dict(
     assumptions=["weights are positive powers of two in [2^-3, 2^6]; scales in {0.5,1,2,4} on acyclic systems only"],
 )
 
+CHECKS["C09"] = dict(
+    stages=[stage("C09", quick=dict(cases=24000, size=100, shards=12), thorough=dict(cases=1200000, size=100, shards=16), case_timeout=300)],
+    technique="rapidcheck property-based testing: generated rectangle sets against a pairwise-overlap validity predicate; "
+              "constraint sets checked by topological sort and by sampling satisfying placements",
+    level_text="Generated rectangle sets (random, identical copies, 1e-3-thin, lattice-aligned ties, nested, chains; "
+               "global borders 0/0.5/3) through all three removeoverlaps overloads: no pair overlaps by more than 1e-6 in both axes "
+               "(border included), sizes preserved, global borders restored, positions finite.  generateXConstraints (with and "
+               "without neighbour lists) and generateYConstraints must be acyclic and satisfiable, and placements obtained by "
+               "solving them for several desired-position vectors (all-equal, reversed, random) must be overlap free.",
+    level_note="The 'fixed rectangles move <1%' clause is only judged where weight 10000 can deliver it (exactly one fixed "
+               "rectangle, a-priori displacement bound below 0.5% of the average size); everything else is the open known "
+               "finding F7 and is counted under excluded_by_construction.  'Any placement' is sampled, not enumerated.",
+    rule="rapidcheck-generated rectangle sets (n<=40 quick, <=200 thorough; seven families) x overload x fixed subset x border; "
+         "non-trivial = at least one pair overlaps initially; distinct by FNV-1a of the case text",
+    min_nontrivial=dict(quick=5000, thorough=200000),
+    assumptions=["rectangle widths/heights may change by floating-point rounding of moveMinX/moveMinY (<=1e-8 relative), as the library's own assertion allows"],
+)
+
 for _k in CHECKS:
     NOT_APPLICABLE.pop(_k, None)
